@@ -82,7 +82,7 @@ func (j *IsolationJob) Run(deadline time.Time) *runner.JobResult {
 		prefixes = append(prefixes, []int{a})
 	}
 	for pi, pf := range prefixes {
-		if (j.Tier != "thorough" && pi > 12) || (!deadline.IsZero() && time.Now().After(deadline)) {
+		if (j.Tier != "thorough" && pi > 5) || (!deadline.IsZero() && time.Now().After(deadline)) {
 			break
 		}
 		for _, a := range muts {
